@@ -49,6 +49,17 @@ impl ExecutableMemory {
   }
 }
 
+/// Verification hook (cfg(gb_dynarec_verif) only): a handle without a mapping, for harnesses that never run
+/// translated code. It must not be dropped.
+#[cfg(gb_dynarec_verif)]
+impl ExecutableMemory {
+  pub fn verif_none() -> Self {
+    Self {
+      memory: None,
+    }
+  }
+}
+
 impl Drop for ExecutableMemory {
   fn drop(&mut self) {
     let memory = self.memory.take().unwrap();
